@@ -34,6 +34,13 @@ func runC04(c *core.Ctx) {
 	h.requestsFromOwnLog("C04.4 requests-from-own-log")
 	c.Clause("C04.6 requests of a stale term have no effect")
 	h.staleTermNoEffect("C04.6 stale-term")
+	c.Clause("C04.7 (index, term) names one entry because a term has one leader: only replies of the current election are counted")
+	h.leaderOnlyByMajority("C04.7 votes-of-this-election")
+	h.candidateReleaseRetiresChannel("C04.7b stale-replies-not-counted")
+	c.Clause("C04.8 the term a leader quotes for the entry at its snapshot index is the snapshot's own term, also after a restart")
+	h.snapshotOrder("C04.8 snapshot-order")
+	c.Clause("C04.9 a log kept across a restart agrees with the latest snapshot at the snapshot's index")
+	h.openStorageRebuild("C04.9 restart-rebuild")
 }
 
 // staleTermNoEffect: in both leader-originated handlers every state-changing
@@ -74,6 +81,8 @@ func runC06(c *core.Ctx) {
 	h.storageErrorsSurface("C06.5 storage-errors-surface", storageErrExempt)
 	h.leaderInitEstablishes("C06.3c voter-cache", "leader.numVoters")
 	h.configSetters("C06.3d config-setters")
+	c.Clause("C06.6 an acknowledgement is booked for the node that was asked: the handshake on every new connection compares cluster id and node id")
+	h.listenerRefusesMismatch("C06.6 listener")
 }
 
 // storageErrExempt: storage-layer errors that are deliberately not handed on,
